@@ -30,6 +30,11 @@ type MethodScope struct {
 	imports      map[string]*Package
 }
 
+// reservedNames are the identifiers the built-in templates declare themselves in
+// the functions they generate. A parameter of such a name is renamed like any
+// other collision.
+var reservedNames = []string{"mock", "_mock", "_m", "_e", "_c", "tmpRet", "_va", "_ca", "_i", "callInfo", "calls"}
+
 func NewMethodScope(r *Registry) *MethodScope {
 	m := &MethodScope{
 		registry:     r,
@@ -40,6 +45,9 @@ func NewMethodScope(r *Registry) *MethodScope {
 	}
 	for key := range r.importQualifiers {
 		m.AddName(key)
+	}
+	for _, name := range reservedNames {
+		m.AddName(name)
 	}
 	return m
 }
